@@ -4,7 +4,7 @@ from harness import gen_seq
 from runner import Case, CaseSet
 
 ID = 'C16'
-OBLIGATIONS = ['Props/C16.v', 'Props/Tie/phospho_tie.v', 'Props/Tie/charge_tie.v', 'Props/Tie/minipy_phospho_tie.v', 'Props/Tie/minipy_phoskappa_tie.v']
+OBLIGATIONS = ['Props/C16.v', 'Props/Tie/phospho_tie.v', 'Props/Tie/charge_tie.v', 'Props/Tie/minipy_phospho_tie.v', 'Props/Tie/minipy_phoskappa_tie.v', 'Props/Tie/minipy_phosdist_tie.v']
 RULE = ('S/T/Y-rich random sequences (N 1..24) x histories of 1..6 set/clear calls; requested positions drawn from '
         '{0, -1, -N, -N-1, 1, N, N+1, N+7, duplicates, non-STY positions, all STY positions}, passed as int / list / tuple; '
         'after every call get_phosphosites, get_phosphosequence, get_sequence are recorded; read-only query points (get_kappa, get_kappa_after_phosphorylation, in either order) are interleaved; at the end kappa_after, all STY '
@@ -16,7 +16,7 @@ LEVEL_TEXT = ('Proof (all op lists): recorded sites = first-occurrence dedup of 
               'changes; phosphosequence has E at exactly those positions; the distribution has 2^k entries in binary counting '
               'order (first site most significant) each being the correspondingly substituted sequence. Tie: source fingerprints; '
               'histories replayed on real objects and compared step by step inside Coq.')
-LEVEL_NOTE_MINIPY = ' Whole-function semantic ties (source translated to Core/MiniPy terms on every run, proved equal to the model for all inputs): setPhosPhoSites, clear/get_phosphosites, get_phosphosequence, get_STY_residues, kappa_at_maxPhos.'
+LEVEL_NOTE_MINIPY = ' Whole-function semantic ties (source translated to Core/MiniPy terms on every run, proved equal to the model for all inputs): setPhosPhoSites, clear/get_phosphosites, get_phosphosequence, get_STY_residues, kappa_at_maxPhos, calculateKappaDistOfPhosphoStates (entry j = the j-th digit tuple of the binary counting order, computed on the sequence with E at exactly the chosen sites).'
 LEVEL_NOTE = 'Closed under the global context. D4 (range guard) was a genuine defect, fixed in /repo; its witness is replayed every run.'
 TECHNIQUE = 'Coq proof (fold_left invariants over op lists, nth_error, binary counting induction) + in-Coq history correspondence'
 
